@@ -375,3 +375,52 @@ package builder
 //@   loop#3 invariant [frame] p.pt == old(p.pt) && *p.errs == old(*p.errs) && p.maxFailPos == old(p.maxFailPos) && p.maxFailExpected == old(p.maxFailExpected)
 //@   safety C11 C15 C17
 //@   frame C18
+
+// ======================================================================================
+// Variable and recovery stacks (C02, C14)
+// ======================================================================================
+
+//@ func (p *parser) pushV()
+//@   requires [ctx] Ctx(p)
+//@   modifies p.vstack, all map[string]any
+//@   ensures [len C02] len(p.vstack) == old(len(p.vstack)) + 1
+//@   ensures [lower C02] forall k int :: 0 <= k && k < old(len(p.vstack)) ==> p.vstack[k] == old(p.vstack[k])
+//@   ensures [fresh-scope C02] p.vstack[old(len(p.vstack))] != nil && len(p.vstack[old(len(p.vstack))]) == 0
+//@   ensures [ctx] Ctx(p)
+//@   raw-capacity
+//@   safety C11
+//@   frame C18
+
+//@ func (p *parser) popV()
+//@   requires [ctx] Ctx(p) && len(p.vstack) >= 1
+//@   modifies p.vstack
+//@   ensures [len C02] len(p.vstack) == old(len(p.vstack)) - 1
+//@   ensures [lower C02] forall k int :: 0 <= k && k < len(p.vstack) ==> p.vstack[k] == old(p.vstack[k])
+//@   ensures [ctx] Ctx(p)
+//@   safety C11
+//@   frame C18
+
+// pushRecovery puts exactly the listed labels in force, all bound to the recovery expression
+//@ func (p *parser) pushRecovery(labels []string, expr any)
+//@   requires [ctx] Ctx(p)
+//@   modifies p.recoveryStack, all map[string]any
+//@   ensures [len C14] len(p.recoveryStack) == old(len(p.recoveryStack)) + 1
+//@   ensures [lower C14] forall k int :: 0 <= k && k < old(len(p.recoveryStack)) ==> p.recoveryStack[k] == old(p.recoveryStack[k])
+//@   ensures [handlers C14] p.recoveryStack[old(len(p.recoveryStack))] != nil && forall l string :: {has(p.recoveryStack[old(len(p.recoveryStack))], l)}
+//@     | (has(p.recoveryStack[old(len(p.recoveryStack))], l) == (exists k int :: 0 <= k && k < len(labels) && labels[k] == l))
+//@     | && (has(p.recoveryStack[old(len(p.recoveryStack))], l) ==> p.recoveryStack[old(len(p.recoveryStack))][l] == expr)
+//@   ensures [ctx] Ctx(p)
+//@   loop#1 invariant [dom C14] forall l string :: {has(m, l)} (has(m, l) == (exists k int :: 0 <= k && k < idx && labels[k] == l)) && (has(m, l) ==> m[l] == expr)
+//@   loop#1 invariant [frame] m != nil
+//@   raw-capacity
+//@   safety C11
+//@   frame C18
+
+//@ func (p *parser) popRecovery()
+//@   requires [ctx] Ctx(p) && len(p.recoveryStack) >= 1
+//@   modifies p.recoveryStack
+//@   ensures [len C14] len(p.recoveryStack) == old(len(p.recoveryStack)) - 1
+//@   ensures [lower C14] forall k int :: 0 <= k && k < len(p.recoveryStack) ==> p.recoveryStack[k] == old(p.recoveryStack[k])
+//@   ensures [ctx] Ctx(p)
+//@   safety C11
+//@   frame C18
